@@ -29,7 +29,7 @@ func init() {
 			"the IdP bootstraps from the metadata only: entity ID, endpoints, bindings, flags, validUntil arithmetic, XML round trip, then verifies the SP's next signed message with the published signing certificate and has an assertion encrypted to the published encryption certificate under each listed method accepted; distinct = shape hash (key config, variant, hours, options, outcome)",
 		Directed:   c19Directed,
 		Run:        c19Run,
-		MustHit:    []string{"variant=Metadata", "variant=MetadataWithSLO", "hours>0", "hours<=0", "enc=setter", "sig=setter", "sig=field", "sig=none", "published_signing_cert_used", "published_encryption_cert_used", "xml_roundtrip", "non_utc_location", "near_dst_transition"},
+		MustHit:    []string{"variant=Metadata", "variant=MetadataWithSLO", "hours>0", "hours<=0", "enc=setter", "sig=setter", "sig=field", "sig=none", "published_signing_cert_used", "published_encryption_cert_used", "xml_roundtrip", "non_utc_location", "near_dst_transition", "signing_key_without_certificate"},
 		RandomRuns: map[string]int{"quick": 3000, "thorough": 20000},
 		Assumptions: []string{"an encryption key is always configured (the library documents it as required)",
 			"XML round trip is compared as values: encoding/xml fills XMLName bookkeeping fields on the way back"},
@@ -72,6 +72,13 @@ func c19Run(r *core.Run) {
 		o.Cfg.SLO = world.DrawNonEmpty(t, "c19.slo")
 	}
 	o.Cfg.Store = &world.SimCertStore{Certs: []*world.Cert{o.IdPCert}}
+	// a signing key that comes without a certificate (a bare key): there is nothing to publish as signing
+	// key, everything else the metadata states must still mirror the configuration
+	certless := t.Int(8, "c19.certless") == 1 && variant == "Metadata" && (o.SigStyle == world.KeySetter || o.SigStyle == world.KeyField)
+	if certless {
+		o.Cfg.SigCertRaw = []byte{}
+		r.Probe("signing_key_without_certificate")
+	}
 	if !o.PreHistory(r) || !o.Build() {
 		return
 	}
@@ -183,7 +190,12 @@ func c19Run(r *core.Run) {
 				return fail("key-descriptor-use", kd.Use, "signing|encryption")
 			}
 		}
-		if nSig != 1 {
+		if certless {
+			if nSig != 0 && sigCert != "" {
+				return fail("signing-descriptor-for-a-key-without-certificate/"+o.KeyCfg(), nSig, 0)
+			}
+			sigCert = base64.StdEncoding.EncodeToString(o.WantSignCert.DER) // nothing to compare
+		} else if nSig != 1 {
 			return fail("signing-descriptor-missing/"+o.KeyCfg(), nSig, 1)
 		}
 		if nEnc != 1 {
@@ -245,7 +257,7 @@ func c19Run(r *core.Run) {
 		kind = "LogoutRequest" // AuthnRequests are only signed when the option is on
 	}
 	m, bo := o.BuildOut(r, kind, true, false)
-	if bo.OK() {
+	if bo.OK() && !certless {
 		if d, err := world.ConformingParse([]byte(m.XML)); err == nil {
 			r.Probe("published_signing_cert_used")
 			if err := world.VerifyEnveloped(d.Root(), sigDER, o.Node.Clock.Dsig()); err != nil {
